@@ -137,9 +137,27 @@ let rec parse_op (t : string list) : op =
   | ["remount"; id] -> Remount (n_of_int (int_of_string id))
   | _ -> failwith ("bad op: " ^ String.concat " " t)
 
+(* the extended alphabet (FsExt.xop): iterate_dir_lfn at manager level and the RAII wrappers *)
+let parse_xop (t : string list) : xop =
+  match t with
+  | ["iterlfn"; d; n] -> XIterLfn (h d, n_of_int (int_of_string n))
+  | ["dropfile"; f] -> XDropFile (h f)
+  | ["dropdir"; d] -> XDropDir (h d)
+  | ["dropvol"; v] -> XDropVol (h v)
+  | ["chdir"; d; nm] -> XChangeDir (h d, name_of_hex nm)
+  | ["weof"; f] -> XWEof (h f)
+  | ["wlen"; f] -> XWLength (h f)
+  | ["woff"; f] -> XWOffset (h f)
+  | _ -> XOp (parse_op t)
+
 let opt_str = function None -> "-" | Some x -> string_of_int (int_of_n x)
 let int_line (s : st) =
-  let vols = String.concat ";" (List.map (fun (v : vol) -> Printf.sprintf "%d:%d:%s:%s" (int_of_n v.v_id) (int_of_n v.v_idx) (opt_str v.v_free) (opt_str v.v_next_free)) s.s_vols) in
+  let vols = String.concat ";" (List.map (fun (v : vol) ->
+      Printf.sprintf "%d:%d:%s:%s:%d:%d:%d:%d:%d:%s:%d:%s" (int_of_n v.v_id) (int_of_n v.v_idx) (opt_str v.v_free) (opt_str v.v_next_free)
+        (int_of_n v.v_lba) (int_of_n v.v_nblocks) (int_of_n v.v_spc) (int_of_n v.v_first_data) (int_of_n v.v_fat_start) (opt_str v.v_second_fat)
+        (int_of_n v.v_clusters)
+        (if v.v_fat32 then Printf.sprintf "32:%d:%d" (int_of_n v.v_root_cluster) (int_of_n v.v_info)
+         else Printf.sprintf "16:%d:%d" (int_of_n v.v_root_block) (int_of_n v.v_root_entries))) s.s_vols) in
   let dirs = String.concat ";" (List.map (fun (d : dirinfo) -> Printf.sprintf "%d:%d:%d" (int_of_n d.d_id) (int_of_n d.d_vol) (int_of_n d.d_cluster)) s.s_dirs) in
   let files = String.concat ";" (List.map (fun (f : fileinfo) ->
       Printf.sprintf "%d:%d:%d:%d:%d:%s:%d:%d:%d:%d:%d:%s" (int_of_n f.f_id) (int_of_n f.f_vol) (int_of_n f.f_cur_off) (int_of_n f.f_cur_cluster)
@@ -181,17 +199,27 @@ let run_script path =
            | x :: r -> split (x :: acc) r
            | [] -> (List.rev acc, None) in
          let (optoks, bind) = split [] rest in
-         let o = parse_op optoks in
+         let xo = parse_xop optoks in
+         let o = (match xo with XOp o -> o | _ -> HasOpen) in
          let s0 = { (get_state ()) with s_trace = [] } in
-         let (out, s1) = step o s0 in
-         (match o, out with
-          | Iter _, Ok (RIter (l, _)) -> List.iter (fun e -> Printf.printf "CB %d %s\n" n (entry_str e)) l
+         let (xout, s1) = xstep xo s0 in
+         let lfn_count = ref (-1) in
+         let out = (match xout with
+             | Ok (XR r) -> Ok r
+             | Ok (XRLfn l) ->
+               List.iter (fun ((e : dirent), nm) -> Printf.printf "CB %d %s %s\n" n (entry_str e)
+                             (match nm with None -> "nolfn" | Some b -> "lfn " ^ hex_of_ints (ints_of_block b))) l;
+               lfn_count := List.length l; Ok RUnit
+             | Err e -> Err e | Panic -> Panic | OutOfFuel -> OutOfFuel) in
+         (match xo, out with
+          | XOp (Iter _), Ok (RIter (l, _)) -> List.iter (fun e -> Printf.printf "CB %d %s\n" n (entry_str e)) l
           | _ -> ());
          (match out with
-          | Ok r -> Printf.printf "RES %d ok %s\n" n (res_str r);
+          | Ok r -> if !lfn_count >= 0 then Printf.printf "RES %d ok iterlfn %d\n" n !lfn_count
+            else Printf.printf "RES %d ok %s\n" n (res_str r);
             (match bind, r with
              | Some sl, RHandle hh -> Hashtbl.replace slots sl (int_of_n hh);
-               (match o with OpenFile _ -> if not (List.mem sl !file_slots) then file_slots := !file_slots @ [sl] | _ -> ())
+               (match xo with XOp (OpenFile _) -> if not (List.mem sl !file_slots) then file_slots := !file_slots @ [sl] | _ -> ())
              | _ -> ())
           | Err e -> Printf.printf "RES %d err %s\n" n (err_name e)
           | Panic -> Printf.printf "RES %d panic\n" n; dead := true
@@ -289,13 +317,13 @@ let run_fsck path =
            | x :: r -> split (x :: acc) r
            | [] -> (List.rev acc, None) in
          let (optoks, bind) = split [] rest in
-         let o = parse_op optoks in
+         let o = parse_xop optoks in
          let s0 = { (get_state ()) with s_trace = [] } in
-         let (out, s1) = step o s0 in
+         let (out, s1) = xstep o s0 in
          (match out with
           | Ok r ->
             (match bind, r with
-             | Some sl, RHandle hh -> Hashtbl.replace slots sl (int_of_n hh)
+             | Some sl, XR (RHandle hh) -> Hashtbl.replace slots sl (int_of_n hh)
              | _ -> ())
           | Err _ -> ()
           | Panic | OutOfFuel -> dead := true);
